@@ -8,10 +8,11 @@ import core
 PY = "/venv/bin/python"
 props = [json.loads(l) for l in open(os.path.join(core.VERIF, "properties.jsonl"))]
 checks, na = [], []
+CLAIMED = set(open(os.path.join(HERE, "claimed.txt")).read().split())   # integrated and verified by the lead
 for p in props:
     pid = p["id"]
     path = os.path.join(HERE, "props", pid.lower() + ".py")
-    if not os.path.exists(path):
+    if not os.path.exists(path) or pid not in CLAIMED:
         na.append({"property_id": pid, "reason": "not claimed yet: the Lean model, theorems and correspondence check "
                    "planned in DESIGN.md for this property have not been built (time); proof is applicable"})
         continue
